@@ -5,6 +5,7 @@ import (
 	"go/constant"
 	"go/token"
 	"go/types"
+	"os"
 
 	"golang.org/x/tools/go/ssa"
 )
@@ -33,6 +34,14 @@ type MapObj struct {
 	keys []Value
 	vals []Value
 }
+type mapIter struct {
+	m    *MapObj
+	left []int
+}
+type strIter struct {
+	s   string
+	pos int
+}
 type goPanic struct{ v Value }
 type abortPath struct{ why string }
 
@@ -53,12 +62,14 @@ type Interp struct {
 	pool    map[*Cont][]Value // sync.Pool contents keyed by the pool object
 	inited  map[*ssa.Package]bool
 	tier    int
+	merged  int
+	noMerge bool
 }
 
 func NewInterp(prog *ssa.Program, tb *TB, ex *Explorer, targets map[*ssa.Package]bool, funcs map[string]string, budget int) *Interp {
 	return &Interp{prog: prog, tb: tb, ex: ex, globals: map[*ssa.Global]*Cont{}, addrOf: map[Ptr]uint64{}, ptrAt: map[uint64]Ptr{},
 		nextAdr: 0xc000000000, funcs: funcs, targets: targets, errType: types.Universe.Lookup("error").Type(), budget: budget,
-		pool: map[*Cont][]Value{}, inited: map[*ssa.Package]bool{}}
+		pool: map[*Cont][]Value{}, inited: map[*ssa.Package]bool{}, noMerge: os.Getenv("VERIF_NOMERGE") != ""}
 }
 
 func copyVal(v Value) Value {
@@ -156,9 +167,10 @@ func (in *Interp) zero(t types.Type) Value {
 }
 
 type frame struct {
-	fn     *ssa.Function
-	env    map[ssa.Value]Value
-	defers []func()
+	fn          *ssa.Function
+	env         map[ssa.Value]Value
+	defers      []func()
+	phiOverride map[*ssa.Phi]Value
 }
 
 func (in *Interp) constVal(c *ssa.Const) Value {
@@ -340,6 +352,7 @@ func (in *Interp) run(fr *frame, _ interface{}) (ret Value) {
 	b := fr.fn.Blocks[0]
 	for {
 		var next *ssa.BasicBlock
+		mergedNow := false
 		for _, ins := range b.Instrs {
 			in.steps++
 			if in.steps > in.budget {
@@ -347,6 +360,10 @@ func (in *Interp) run(fr *frame, _ interface{}) (ret Value) {
 			}
 			switch x := ins.(type) {
 			case *ssa.Phi:
+				if v, ok := fr.phiOverride[x]; ok {
+					fr.env[x] = v
+					continue
+				}
 				for i, p := range b.Preds {
 					if p == prev {
 						fr.env[x] = in.get(fr, x.Edges[i])
@@ -357,6 +374,13 @@ func (in *Interp) run(fr *frame, _ interface{}) (ret Value) {
 				c := in.get(fr, x.Cond).(*Term)
 				if in.ex.stats != nil && !c.IsConst() {
 					in.ex.curSite = in.prog.Fset.Position(x.Cond.Pos()).String()
+				}
+				if !c.IsConst() && !in.noMerge {
+					if j, ok := in.tryMerge(fr, b, c); ok {
+						next = j
+						mergedNow = true
+						break
+					}
 				}
 				if in.ex.branch(c) {
 					next = b.Succs[0]
@@ -408,6 +432,9 @@ func (in *Interp) run(fr *frame, _ interface{}) (ret Value) {
 			default:
 				panic(fmt.Sprintf("instr %T", ins))
 			}
+		}
+		if !mergedNow && fr.phiOverride != nil {
+			fr.phiOverride = nil
 		}
 		prev, b = b, next
 	}
@@ -542,6 +569,45 @@ func (in *Interp) builtin(b *ssa.Builtin, args []Value, c *ssa.CallCommon) Value
 			c2.slots[s.len+i] = copyVal(t.c.slots[t.off+i])
 		}
 		return Slice{c2, 0, n, nc}
+	case "delete":
+		m := args[0].(*MapObj)
+		if m != nil {
+			for i := range m.keys {
+				if in.eqConcrete(m.keys[i], args[1]) {
+					m.keys = append(append([]Value{}, m.keys[:i]...), m.keys[i+1:]...)
+					m.vals = append(append([]Value{}, m.vals[:i]...), m.vals[i+1:]...)
+					break
+				}
+			}
+		}
+		return nil
+	case "copy":
+		d, sc := args[0].(Slice), args[1].(Slice)
+		n := min(d.len, sc.len)
+		tmp := make([]Value, n)
+		for i := 0; i < n; i++ {
+			tmp[i] = copyVal(sc.c.slots[sc.off+i])
+		}
+		for i := 0; i < n; i++ {
+			d.c.slots[d.off+i] = tmp[i]
+		}
+		return in.tb.Const(64, uint64(n))
+	case "min", "max":
+		r := args[0].(*Term)
+		_, signed := widthOf(c.Args[0].Type())
+		for _, a := range args[1:] {
+			t := a.(*Term)
+			op := "bvult"
+			if signed {
+				op = "bvslt"
+			}
+			lt := in.tb.Cmp(op, t, r)
+			if b.Name() == "max" {
+				lt = in.tb.Cmp(op, r, t)
+			}
+			r = in.tb.Ite(lt, t, r)
+		}
+		return r
 	case "Slice": // unsafe.Slice
 		p := args[0].(Ptr)
 		n := in.concInt(args[1].(*Term))
@@ -692,6 +758,43 @@ func (in *Interp) eval(fr *frame, v ssa.Value) Value {
 			in.goPanicStr("interface conversion failed")
 		}
 		return res
+	case *ssa.Range:
+		switch m := in.get(fr, x.X).(type) {
+		case *MapObj:
+			it := &mapIter{m: m}
+			if m != nil {
+				it.left = make([]int, len(m.keys))
+				for i := range it.left {
+					it.left[i] = i
+				}
+			}
+			return it
+		case Str:
+			return &strIter{s: string(m)}
+		}
+		panic(abortPath{"unsupported: range over " + x.X.Type().String()})
+	case *ssa.Next:
+		switch it := in.get(fr, x.Iter).(type) {
+		case *mapIter:
+			mt := x.Iter.(*ssa.Range).X.Type().Underlying().(*types.Map)
+			if len(it.left) == 0 {
+				return Tuple{in.tb.Bool(false), in.zero(mt.Key()), in.zero(mt.Elem())}
+			}
+			// Go leaves the iteration order unspecified: every order is explored
+			k := in.ex.choice("mapOrder", len(it.left))
+			idx := it.left[k]
+			it.left = append(append([]int{}, it.left[:k]...), it.left[k+1:]...)
+			return Tuple{in.tb.Bool(true), it.m.keys[idx], it.m.vals[idx]}
+		case *strIter:
+			if it.pos >= len(it.s) {
+				return Tuple{in.tb.Bool(false), in.tb.Const(64, 0), in.tb.Const(32, 0)}
+			}
+			r := []rune(it.s[it.pos:])[0]
+			p := it.pos
+			it.pos += len(string(r))
+			return Tuple{in.tb.Bool(true), in.tb.Const(64, uint64(p)), in.tb.Const(32, uint64(r))}
+		}
+		panic(abortPath{"unsupported: next"})
 	case *ssa.Lookup:
 		m := in.get(fr, x.X)
 		switch mm := m.(type) {
